@@ -68,6 +68,10 @@ func (C01) Generate(rng *rand.Rand, tier string, runIdx uint64) simkit.Plan {
 	p := &Plan{Cfg: Cfg{GCTTL: simkit.Pick(rng, []string{"15m", "30s"}), GCGran: "1s", Followers: genFollowers(rng, 1+rng.IntN(3))}}
 	p.Cfg.Extra = map[string]string{"dualstack": simkit.Pick(rng, []string{"off", "off", "on"})}
 	for len(p.Steps) < n {
+		if simkit.Chance(rng, 4) {
+			p.Steps = append(p.Steps, g.Macro()...)
+			continue
+		}
 		p.Steps = append(p.Steps, g.Next())
 	}
 	return p
